@@ -16,18 +16,26 @@ def families(tier, seed):
     cfgs = []
     # every digraph on 3 services over @-edges (self loops included): 512
     step = 1 if tier == "thorough" else 3
+    off = seed % step        # which third of the exhaustive families the quick tier takes depends on the seed
     for k, es in enumerate(graphgen.all_digraphs(3)):
-        if k % step == 0:
+        if (k + off) % step == 0:
             cfgs.append(("svc3", graphgen.graph_cfg(3, es)))
     # every digraph on 3 parameters
     for k, es in enumerate(graphgen.all_digraphs(3)):
-        if k % step == 0:
+        if (k + off) % step == 0:
             cfgs.append(("param3", graphgen.graph_cfg(0, set(), n_params=3, param_edges=es)))
     # the same structures with the references written in descending order and with text between them
     for k, es in enumerate(graphgen.all_digraphs(3)):
         if (k + 1) % step == 0:
             cfgs.append(("param3-desc", graphgen.graph_cfg(0, set(), n_params=3, param_edges=es, order="desc", param_sep="://")))
             cfgs.append(("svc3-desc", graphgen.graph_cfg(3, es, order="desc")))
+    # the same structures with references written more than once (first twice, each twice, first again at the end): a repeated
+    # reference is one dependency
+    for k, es in enumerate(graphgen.all_digraphs(3)):
+        if (k + off) % (step * 2) == 0:
+            for rp_ in ("first", "each", "sandwich"):
+                cfgs.append(("param3-repeat", graphgen.graph_cfg(0, set(), n_params=3, param_edges=es, repeat=rp_, param_sep=", " if rp_ == "first" else "")))
+                cfgs.append(("svc3-repeat", graphgen.graph_cfg(3, es, repeat=rp_, order="desc" if rp_ == "each" else "asc")))
     # the same edges written in calls (after a call without arguments), fields and withers instead of constructor arguments
     for k, es in enumerate(graphgen.all_digraphs(3)):
         if (k + 1) % (step * 2) == 0:
@@ -39,6 +47,37 @@ def families(tier, seed):
         if (k + 2) % (step * 2) == 0:
             gh = {i: rg.choice(["first", "last"]) for i in range(3) if rg.random() < 0.6}
             cfgs.append(("svc3-ghost", graphgen.graph_cfg(3, es, ghosts=gh, order=rg.choice(["asc", "desc"]))))
+    # !tagged requested from calls, fields, withers and decorator arguments; duplicate references; todo services on the way
+    S = lambda **kw: dict({"constructor": "NewA"}, **kw)
+    hand = [
+        {"services": {"a": S(tags=["t"], arguments=["@b"]), "b": S(calls=[["Set", ["!tagged t"]]])}},
+        {"services": {"a": S(tags=["t"], arguments=["@b"]), "b": S(fields={"F": "!tagged t"})}},
+        {"services": {"a": S(tags=["t"], arguments=["@b"]), "b": S(calls=[["With", ["!tagged t"], True]])}},
+        {"services": {"a": S(tags=["t"]), "b": S(calls=[["Set", ["!tagged t"]]], fields={"F": "!tagged t"})}},
+        {"services": {"a": S(tags=["t"], calls=[["Set", [1, "!tagged t"]]])}},
+        {"services": {"a": S(tags=["t"]), "b": S(tags=["u"], arguments=["!tagged t"])}, "decorators": [{"tag": "t", "decorator": "Decorate", "arguments": ["!tagged u"]}]},
+        {"services": {"a": S(tags=["t"]), "b": S(tags=["u"], arguments=["!tagged t"])}, "decorators": [{"tag": "u", "decorator": "Decorate", "arguments": ["!tagged t"]}]},
+        {"services": {"a": S(tags=["t"]), "b": S(arguments=["@a"])}, "decorators": [{"tag": "*", "decorator": "Decorate", "arguments": ["@b"]}]},
+        {"services": {"a": S(tags=["t"]), "b": S()}, "decorators": [{"tag": "*", "decorator": "Decorate", "arguments": ["@b"]}]},
+        {"services": {"a": S(arguments=["@b", "@b"]), "b": S(arguments=["@a", "@a"])}},
+        {"services": {"a": S(arguments=["@b", "@b", "@c"]), "b": S(), "c": S(fields={"F": "@b", "G": "@b"})}},
+        {"services": {"a": S(arguments=["@b"]), "b": {"todo": True, "constructor": "NewA", "arguments": ["@a"]}}},
+        {"services": {"a": S(arguments=["@b"]), "b": {"todo": True}, "c": S(arguments=["@a", "@b"])}},
+        {"parameters": {"a": "%b% %b%", "b": "%c%%c%", "c": "x%a%"}},
+        {"parameters": {"a": "%todo()% %b%", "b": "%a%"}},
+        {"parameters": {"a": "%%a%%", "b": "%%%b%"}},
+    ]
+    for n_ in (4, 5, 8, 12):
+        ring = {"p%d" % i: "x%%p%d%%" % ((i + 1) % n_) for i in range(n_)}
+        hand.append({"parameters": dict(ring)})
+        hand.append({"parameters": dict(ring, **{"p%d" % (n_ - 1): "end"})})            # the ring cut open: a chain
+        hand.append({"parameters": dict(ring, p0="%p1% %p" + str(n_ // 2) + "%")})     # a chord: two overlapping cycles
+        hand.append({"parameters": dict(ring, **{"p%d" % (n_ - 1): "end", "p1": "%p1%"})})   # a chain with one self-loop in the middle
+        sring = {"s%d" % i: S(arguments=["@s%d" % ((i + 1) % n_)]) for i in range(n_)}
+        hand.append({"services": dict(sring)})
+        hand.append({"services": dict(sring, **{"s%d" % (n_ - 1): {"value": "Value"}})})
+    for cfg in hand:
+        cfgs.append(("hand", cfg))
     # one name used for a service, a parameter and a tag at once, referenced side by side in every order (the three namespaces are separate)
     for refs in [["%b%", "@b"], ["%b%", "!tagged b"], ["@b", "!tagged b"], ["%b%", "@b", "!tagged b"], ["%b%"], ["!tagged b"], ["%b%", "%a%", "@b"]]:
         for perm in itertools.permutations(refs):
@@ -184,6 +223,19 @@ def run(tier, seed, replay):
                     out.violation("cycle-element-not-shown:" + fam, "parameter %s lies on a cycle but no reported cycle passes through it" % p, rep)
             if len(samples) < 5 and len(nontrivial) % 40 == 1:
                 samples.append({"family": fam, "config": cfggen.to_yaml(cfg), "diagnostics": cerrs})
+    # ---- run-time half: an accepted container reports no circular dependencies and every parameter evaluation terminates
+    from . import rtcommon
+    rs, hs, gs = rtcommon.gen_cases(seed, "c07rt", 16 if tier == "quick" else 300, weights={"todo": 0.1, "decorators": 0.6, "tagged": 0.6}, hist_len=0)
+    for k, sp in enumerate(rs):
+        hs[k] = [{"op": "circular", "name": ""}] + [{"op": "param", "name": p_} for p_ in sp["cfg"]["parameters"]] + [{"op": "get", "name": n_} for n_ in sp["cfg"]["services"]] + [{"op": "circular", "name": ""}]
+    robs, rl, ml, racc = rtcommon.run_histories(out, tooldir, env, rs, hs, "C07 run-time half", "C07")
+    for k in racc:
+        for o, line in zip(hs[k], rl[k]):
+            if o["op"] == "circular" and line != "N":
+                out.violation("runtime-circular", "an accepted container reports circular dependencies: %s" % line[:200], dict(common.slim(rs[k], robs[k]), history=hs[k]))
+            if "circular" in line.lower() and o["op"] != "circular":
+                out.violation("runtime-circular", "%s %s of an accepted container fails with a circular-dependency error: %s" % (o["op"], o["name"], line[:200]), dict(common.slim(rs[k], robs[k]), history=hs[k]))
+    dist["runtime"] = {"programs": len(racc), "operations": sum(len(hs[k]) for k in racc)}
     out.coverage.update({
         "evaluations": len(specs), "distinct_nontrivial": len(nontrivial), "exhaustive": tier == "thorough",
         "rule": "exhaustive digraphs on 3 services (@ edges, self loops) and on 3 parameters, tag carrier/request constellations, decorators on tags with service/tag dependencies, random larger sparse graphs; non-trivial = at least one cycle diagnostic; distinct by diagnostics set",
